@@ -241,7 +241,7 @@ theorem advance_pops : ∀ (d : Nat) {st st' : St} {f k : Nat}, st.sub = k + 1 +
     | zero => rw [advance] at e; cases e
     | succ f =>
       obtain ⟨pl, pos, ch, hw, hl, hc⟩ := hex (k + 1 + d) (by omega) (by omega)
-      obtain ⟨_, st1, e1, hs1, hf1, hl1⟩ := advance_pop (k := k + 1 + d) (by omega) (flat_pos st (by omega)) hw hl hc e
+      obtain ⟨_, st1, e1, hs1, hf1, hl1, _, _⟩ := advance_pop (k := k + 1 + d) (by omega) (flat_pos st (by omega)) hw hl hc e
       obtain ⟨f2, st2, e2, hs2, hf2, hl2⟩ := ih (k := k) hs1
         (fun j h1 h2 => (hex j h1 (by omega)).frame hf1 (by omega)) e1
       exact ⟨f2, st2, e2, hs2, (hf1.mono (by omega)).trans hf2 (Nat.le_refl _), by rw [hl2, hl1]⟩
